@@ -40,6 +40,8 @@ type srvConn struct {
 	clientClosed bool   // client closed its end: EOF after `in` is drained
 	closed       bool   // server called Close()
 	wfail        bool   // Write fails from now on
+	wstall       bool   // Write blocks until the connection is closed (or made to fail): the client does not read
+	wBlocked     bool   // the write loop is parked inside such a Write
 
 	// instrumentation (under mu)
 	rBlocked   bool // the read goroutine is parked inside Read waiting for bytes
@@ -112,6 +114,11 @@ func (c *srvConn) Write(b []byte) (int, error) {
 		c.wPush++
 	}
 	fromLoop := packet.Type(typ) == packet.Heartbeat || packet.Type(typ) == packet.Data
+	for c.wstall && !c.closed && !c.wfail {
+		c.wBlocked = true
+		c.cond.Wait()
+	}
+	c.wBlocked = false
 	if c.closed || c.wfail {
 		if fromLoop {
 			c.wFailed++
@@ -132,12 +139,28 @@ func (c *srvConn) Write(b []byte) (int, error) {
 	return len(b), nil
 }
 
+// setWfail makes Write fail from now on (a Write parked by wstall fails at once).
+func (c *srvConn) setWfail() {
+	c.mu.Lock()
+	c.wfail = true
+	c.wBlocked = false // the waker clears it (see rBlocked)
+	c.cond.Broadcast()
+	c.mu.Unlock()
+}
+
+func (c *srvConn) setWstall() {
+	c.mu.Lock()
+	c.wstall = true
+	c.mu.Unlock()
+}
+
 func (c *srvConn) Close() error {
 	c.mu.Lock()
 	c.closeCalls++
 	c.closed = true
 	c.peerEOF = true
 	c.rBlocked = false
+	c.wBlocked = false
 	c.cond.Broadcast()
 	c.mu.Unlock()
 	return nil
